@@ -1,0 +1,19 @@
+//go:build verif
+// +build verif
+
+package listener
+
+import "net"
+
+// NewFromListener 仅供仿真使用：在给定的 net.Listener 之上创建多路复用侦听器
+// （与 New 相同的初始设置，但不打开真实端口）。
+func NewFromListener(l net.Listener) *Listener {
+	return &Listener{
+		root:            l,
+		bufferSize:      1024,
+		errorHandler:    func(_ error) bool { return true },
+		closing:         make(chan struct{}),
+		readTimeout:     noTimeout,
+		settingsHandler: func(_ net.Conn) {},
+	}
+}
